@@ -294,8 +294,13 @@ def run_oserror(job, res):
             return
         res.add_set("ops", (flavour, ext, len(ops)))
         pts = [i for i, o in enumerate(ops) if o[0] != "write"] + [i for i, o in enumerate(ops) if o[0] == "write"][::7]
+        # errno values that Python turns into OSError subclasses of their own (TimeoutError - which is also what asyncio's
+        # own time-outs raise -, InterruptedError, BlockingIOError, FileNotFoundError, FileExistsError, BrokenPipeError,
+        # ConnectionResetError, PermissionError): ETIMEDOUT at every non-write operation, one of the others in turn
+        special = [errno.EINTR, errno.EAGAIN, errno.ENOENT, errno.EEXIST, errno.EPIPE, errno.ECONNRESET, errno.EACCES]
         for k in sorted(set(pts)):
-            for err in (errno.EIO, errno.ENOSPC):
+            more = (errno.ETIMEDOUT, special[k % len(special)]) if ops[k][0] != "write" else (special[k % len(special)],) if k % 3 == 0 else ()
+            for err in (errno.EIO, errno.ENOSPC) + more:
                 case = {"kind": "oserror", "flavour": flavour, "ext": ext, "k": k, "what": f"oserror:{ops[k][0]}", "errno": errno.errorcode[err],
                         "desc": f"{errno.errorcode[err]} at op {k} ({ops[k][0]}) of the scheduled {ext} save"}
                 holder = {}
@@ -318,6 +323,9 @@ def run_oserror(job, res):
                         res.count("quiet_variants")
                     if variant.get("shrink"):
                         res.count("shrinking_variants")
+                res.add_set("errnos", errno.errorcode[err])
+                if err not in (errno.EIO, errno.ENOSPC):
+                    res.count("faults_with_errnos_of_special_exception_classes")
         res.sample({"kind": "oserror", "flavour": flavour, "ext": ext, "ops": [o[0] for o in ops if o[0] != "write"], "points": len(set(pts))})
     finally:
         shutil.rmtree(tmp, ignore_errors=True)
